@@ -21,6 +21,8 @@ def mechanisms(run: Run, rec: dict):
         c('create_refused')
         return
     evs = [rec['create']] + rec['steps']
+    if rec.get('spec', {}).get('chips'):
+        c('hands_chip_type_' + rec['spec']['chips'])
     prev_bets = None
     for ev in evs:
         if ev.get('op') and ev['op'] != 'none':
@@ -103,11 +105,19 @@ def replenish_count(rec):
 
 def gen_hands(run: Run, rng: random.Random, count: int, tid0: int, spec_kw: dict, pol_kw: dict, werr_p=0.7, spec_fn=None):
     recs = []
-    for j in range(count):
+    j = tries = 0
+    while j < count and tries < 4 * count + 20:
+        tries += 1
         spec = (spec_fn or games.random_spec)(rng, **spec_kw)
         spec.setdefault('werr', rng.random() < werr_p)
         pol = walk.Policy(**pol_kw)
-        rec = walk.play_hand(tid0 + j, spec, rng, pol)
+        try:
+            rec = walk.play_hand(tid0 + j, spec, rng, pol)
+        except pk.OffGrid:
+            # float / Decimal chips: a pot was divided by 3, 5 or 7 and the shares are rounded - not loggable exactly, left out
+            run.count('hands_left_out_inexact_division', 1)
+            continue
+        j += 1
         mechanisms(run, rec)
         r = replenish_count(rec)
         if r:
